@@ -755,9 +755,83 @@ def rule_split_inc(ctx):
                                           "prevent the pending destruction attempt from running between the two RMWs"
                                           % (field, cls), ev[0].loc())
                         break
+    # token-less adders: a function outside utils.rs that adds to a count through a helper read inlined, with no from-zero
+    # token on any path (`RcInner::increment_weak_owned`: "the original keeps its share, the count cannot be zero"). That is
+    # sound only for receivers whose handle excludes a zero count - and for every handle the crate itself passes to it
+    # (S-C03-7: WeakSnapshot::counted duplicating a borrowed `ManuallyDrop<Weak>` view of its pointer)
+    NONZERO = {"strong": {"strong::Rc": "a strong owner", "strong::AtomicRc": "a strong owner"},
+               "weak": {"strong::Rc": "the strong side holds the implicit weak share", "strong::Snapshot": "the object is alive: "
+                        "the implicit weak share", "weak::Weak": "a weak owner", "weak::AtomicWeak": "a weak owner",
+                        "strong::AtomicRc": "a strong owner"}}
+    prog = ctx.prog
+    for name, b in sorted(prog.bodies.items()):
+        if name.startswith("utils::") or b.kind == "closure" or "::test" in name or name in prog.auto_inline():
+            continue
+        if not any((c.target or "") in prog.auto_inline() for (_, _, c) in b.calls()):
+            continue
+        tokenless = {}
+        for p in ctx.paths(name):
+            if p.exit[0] == "diverge":
+                continue
+            sites = [s_ for s_ in ctx.sites_on_path(p) if s_["outcome"] == "ok"]
+            for side in ("strong", "weak"):
+                adds = [s_ for s_ in sites if s_["delta"].get(side, (0,))[0] > 0]
+                if not adds:
+                    continue
+                # (a test the code itself makes - not a debug assertion - of the observed count against zero)
+                tok = [q for q in ctx.predicates(p) if q["field"] == side and q["rel"] == "==" and const_of(q["rhs"]) == 0
+                       and not q["exp"] and p.exit[0] != "diverge" and len(adds) >= 2 and q["S"] in [a["observed"] for a in adds]]
+                ent = tokenless.setdefault(side, {"tok": False, "site": adds[0]})
+                if tok:
+                    ent["tok"] = True
+        for side, ent in tokenless.items():
+            if ent["tok"]:
+                continue
+            s0 = ent["site"]
+            cls, shown = _receiver_class(prog, b, s0["obj"])
+            okc = cls in NONZERO[side]
+            n += 1
+            r.instance("%s adds to the %s count with no from-zero token: its receiver `%s` excludes a zero count" % (name, side, cls), okc)
+            if not okc:
+                r.violate(name, "tokenless:" + side, "adds to the %s count without the from-zero token through a `%s` handle, under "
+                          "which the count may be zero with a release attempt pending: the attempt takes the new share for its token "
+                          "and the next one frees the object under it" % (side, cls), s0["event"].loc())
+            for (cb, cbi, ct, cc) in prog.callers_of(name):
+                if "::test" in cb.name:
+                    continue
+                for rootname in prog.path_roots(cb.name):
+                    rb_ = prog.body(rootname)
+                    for p in ctx.paths(rootname):
+                        ev = [e for e in p.events if e.kind == "call" and e.target == name and e.bb == cbi and e.body is cb]
+                        if not ev:
+                            continue
+                        ccls, cshown = _receiver_class(prog, rb_, _view_of(ev[0].args[0]))
+                        okk = ccls in NONZERO[side]
+                        n += 1
+                        r.instance("%s passes a `%s` to %s (token-less %s increment)" % (rootname, ccls, name, side), okk)
+                        if not okk:
+                            r.violate(rootname, "tokenless-call:" + side, "hands `%s` (a `%s`) to %s, which adds to the %s count "
+                                      "without the from-zero token: under such a handle the count may be zero with a release "
+                                      "attempt pending" % (cshown[:50], ccls, name, side), ev[0].loc())
+                        break
     r.notes.append("split-increment functions: %s" % {k: sorted(v) for k, v in cands.items()})
     r.require(nall, 5, "call sites of count-adding functions outside utils.rs")
     return r
+
+
+def _view_of(t):
+    """`&ManuallyDrop::new(Weak::from_raw(x))` / `&*md` -> `Weak::from_raw(x)`: what a borrowed view is a view of"""
+    t = strip(t)
+    while isinstance(t, tuple):
+        if t[0] in ("ref", "deref", "load"):
+            t = strip(t[1])
+        elif t[0] == "call" and (norm(t[1]) in ("std::mem::ManuallyDrop::new", "std::ops::Deref::deref", "weak::Weak::from_raw",
+                                                "strong::Rc::from_raw")
+                                 or norm(t[1]).endswith("ManuallyDrop<T> as std::ops::Deref>::deref")) and t[2]:
+            t = strip(t[2][0])
+        else:
+            break
+    return t
 
 
 # ------------------------------------------------------------------------------------------
@@ -1308,7 +1382,14 @@ def rule_weak_protocol(ctx):
         n += 1
         if weaked == 0:
             s = sites[0]
-            ok = (len(sites) == 1 and s["op"].startswith("compare_exchange")
+            # (a second add of one unit under `weak == 0` of the word that CAS observed is the from-zero token of the other
+            #  arm, applied here as well: a dead path - the strong side's implicit share keeps weak >= 1 until WEAKED is set -
+            #  and harmless)
+            extra = sites[1:]
+            extra_ok = not extra or (len(extra) == 1 and extra[0]["delta"]["weak"][0] > 0 and const_of(extra[0]["delta"]["weak"][1]) == 1
+                                     and any(q["S"] == s["observed"] and q["field"] == "weak" and q["rel"] == "==" and
+                                             const_of(q["rhs"]) == 0 for q in preds))
+            ok = (extra_ok and s["op"].startswith("compare_exchange")
                   and const_of(s["sets"].get("weaked", ("c", None, ""))) == 1
                   and s["delta"]["weak"][1] == ("arg", 2, "count") and s["delta"]["weak"][0] > 0)
             r.instance("increment_weak: first share sets WEAKED in the same CAS", ok)
